@@ -13,7 +13,13 @@ Inductive case :=
 (* the real Execute under the schedule in which the dispatch loop runs ahead of the batch goroutines
    (GOMAXPROCS(1), ProposalsHash fails at once): the member lists handed to hashing/signing, in
    canonical order *)
-| Hsh (cap tg : N) (ps : list prop) (impl_batches : list (list N * N)) (impl_hashed : list (list N)).
+| Hsh (cap tg : N) (ps : list prop) (impl_batches : list (list N * N)) (impl_hashed : list (list N))
+(* scripted failures of the executed-status lookup ([fl]: per position how often it fails):
+   proposalBatches -> None if it returned an error, else its batches (as for Bat) *)
+| BatF (cap tg : N) (ps : list prop) (fl : list N) (impl : option (list (list N * N)))
+(* the same + the real Execute as for Hsh: did it return an error, what was handed to ProposalsHash *)
+| HshF (cap tg : N) (ps : list prop) (fl : list N) (impl : option (list (list N * N)))
+       (impl_err : bool) (impl_hashed : list (list N)).
 
 Fixpoint obs_eqb (a b : list (list N * N)) : bool :=
   match a, b with
@@ -36,8 +42,21 @@ Fixpoint hashed_eqb (a b : list (list N)) : bool :=
 Definition hashed_spec (obs : list (list N * N)) : list (list N) :=
   map (fun ib => fst (snd ib)) (signed_from (@fst (list N) N) 0 obs).
 
+Definition opt_obs_eqb (a b : option (list (list N * N))) : bool :=
+  match a, b with
+  | None, None => true
+  | Some x, Some y => obs_eqb x y
+  | _, _ => false
+  end.
+
 Definition agree (c : case) : bool :=
   match c with
+  | BatF cap tg ps fl r => opt_obs_eqb (option_map (map obs_of) (batches_r cap tg ps fl)) r
+  | HshF cap tg ps fl r err hs =>
+      opt_obs_eqb (option_map (map obs_of) (batches_r cap tg ps fl)) r
+      && hashed_eqb (hashed_model cap tg ps fl) hs
+      (* ProposalsHash of the recording bridge fails, so Execute errs as soon as anything is hashed *)
+      && Bool.eqb err (lookup_err ps fl || negb (is_nil (hashed_model cap tg ps fl)))
   | Bat cap tg ps obs => obs_eqb (map obs_of (batches cap tg ps)) obs
   | Ses mid cap tg ps obs sess =>
       obs_eqb (map obs_of (batches cap tg ps)) obs
@@ -49,12 +68,15 @@ Definition agree (c : case) : bool :=
 
 Definition judge (c : case) : bool :=
   match c with
+  | BatF cap tg ps fl r => spec_ok_r cap tg ps fl r
+  | HshF cap tg ps fl r err hs => spec_ok_r cap tg ps fl r && hashed_ok_r ps fl err hs
   | Bat cap tg ps obs => spec_ok cap tg ps obs
   | Ses mid cap tg ps obs sess => spec_ok cap tg ps obs && sess_ok mid obs sess
   | Hsh cap tg ps obs hs => spec_ok cap tg ps obs && hashed_eqb (hashed_spec obs) hs
   end.
 
-(* branch tag: 0 nothing pending | 1 one batch | 2 roll-over, no overflow | 3 overflow; +4 session *)
+(* branch tag: 0 nothing pending | 1 one batch | 2 roll-over, no overflow | 3 overflow; +4 session;
+   16/17 a lookup fails (batches / Execute); 20+/24+ lookups scripted, none fails *)
 Definition tag (c : case) : N :=
   let t cap tg ps :=
     if negb (no_overflow tg ps) then 3
@@ -66,6 +88,8 @@ Definition tag (c : case) : N :=
   | Bat cap tg ps _ => t cap tg ps
   | Ses _ cap tg ps _ _ => 4 + t cap tg ps
   | Hsh cap tg ps _ _ => 8 + t cap tg ps
+  | BatF cap tg ps fl _ => if lookup_err ps fl then 16 else 20 + t cap tg ps
+  | HshF cap tg ps fl _ _ _ => if lookup_err ps fl then 17 else 24 + t cap tg ps
   end.
 
 Definition check_all := check_cases agree judge tag.
